@@ -190,10 +190,58 @@ Section P.
   Definition D (st : state) (k : nat) : Z := den (alive st) (store st) k.
   Definition Dsrc (st : state) (s : src) : Z := dsrc (alive st) (store st) s.
 
-  (* the remembered (source, value) pairs determine the value: on every store on which the
-     remembered sources have the remembered values, the function returns v *)
+  (* the reads a function performs, in order, with the values read *)
+  Fixpoint preads (dn : nat -> Z) (al : Z -> bool) (sto : Z -> Z -> Z) (j : nat) (e : expr) : list (src * Z) :=
+    match e with
+    | Const _ => []
+    | Obs o nm => if al o then [(SObs o nm, sto o nm)] else []
+    | Comp k => if (k <? j)%nat && al (cown k) then [(SComp k, dn k)] else []
+    | Add a b => preads dn al sto j a ++ preads dn al sto j b
+    | If c a b => preads dn al sto j c ++
+                  (if pev dn al sto j c =? 0 then preads dn al sto j b else preads dn al sto j a)
+    end.
+  Definition reads_of (al : Z -> bool) (sto : Z -> Z -> Z) (j : nat) : list (src * Z) :=
+    preads (den al sto) al sto j (d_expr (cdef_at prog j)).
+
+  (* the values read determine the result and the reads themselves *)
+  Lemma preads_det : forall al sto0 sto' j e,
+    (forall s x, In (s, x) (preads (den al sto0) al sto0 j e) -> dsrc al sto' s = x) ->
+    pev (den al sto') al sto' j e = pev (den al sto0) al sto0 j e /\
+    preads (den al sto') al sto' j e = preads (den al sto0) al sto0 j e.
+  Proof.
+    intros al sto0 sto' j. induction e as [z|o nm|k|a IHa b IHb|c IHc a IHa b IHb]; simpl; intros H.
+    - auto.
+    - destruct (al o) eqn:E; auto. specialize (H (SObs o nm) (sto0 o nm) (or_introl eq_refl)). simpl in H.
+      rewrite H. auto.
+    - destruct ((k <? j)%nat && al (cown k)) eqn:E; auto.
+      specialize (H (SComp k) (den al sto0 k) (or_introl eq_refl)). simpl in H. rewrite H. auto.
+    - destruct IHa as [A1 A2]; [intros; apply H; apply in_or_app; auto|].
+      destruct IHb as [B1 B2]; [intros; apply H; apply in_or_app; auto|].
+      rewrite A1, A2, B1, B2. auto.
+    - destruct IHc as [C1 C2]; [intros; apply H; apply in_or_app; auto|].
+      rewrite C1, C2. destruct (pev (den al sto0) al sto0 j c =? 0).
+      + destruct IHb as [B1 B2]; [intros; apply H; apply in_or_app; auto|]. rewrite B1, B2. auto.
+      + destruct IHa as [A1 A2]; [intros; apply H; apply in_or_app; auto|]. rewrite A1, A2. auto.
+  Qed.
+
+  (* the remembered (source, value) pairs are exactly the reads of an evaluation on some store sto0
+     (the store of the last evaluation), with the values read, and v is its result *)
   Definition RD (al : Z -> bool) (j : nat) (P : pdict) (v : Z) : Prop :=
-    forall sto', (forall s x, In (s, x) (flat P) -> dsrc al sto' s = x) -> den al sto' j = v.
+    exists sto0, (forall p, In p (flat P) <-> In p (reads_of al sto0 j)) /\ v = den al sto0 j.
+
+  (* hence they determine the value: on every store on which the remembered sources have the
+     remembered values, the function returns v (and performs the same reads) *)
+  Lemma RD_det : forall al j P v, RD al j P v ->
+    forall sto', (forall s x, In (s, x) (flat P) -> dsrc al sto' s = x) ->
+    den al sto' j = v /\ (forall p, In p (flat P) <-> In p (reads_of al sto' j)).
+  Proof.
+    intros al j P v [sto0 [Hp Hv]] sto' H.
+    destruct (preads_det al sto0 sto' j (d_expr (cdef_at prog j))) as [E1 E2].
+    { intros s x Hin. apply H. apply Hp. exact Hin. }
+    split.
+    - rewrite den_unfold, E1, Hv, den_unfold. reflexivity.
+    - intro p. unfold reads_of. rewrite E2. apply Hp.
+  Qed.
 
   (* ---------------------------------------------------------------- the invariant *)
   Record G (st : state) : Prop := {
@@ -345,6 +393,35 @@ Section P.
 
   Lemma notify_id : forall st s, (forall d, In d (subs st s) -> dirty st d = true) -> notify prog st s = st.
   Proof. intros. unfold notify. apply fold_sd_id. assumption. Qed.
+
+  (* a notification touches nothing but dirty flags *)
+  Definition nodirty_eq (st st' : state) : Prop :=
+    store st' = store st /\ alive st' = alive st /\ first st' = first st /\ value st' = value st /\
+    count st' = count st /\ parents st' = parents st /\ subs st' = subs st /\ ps st' = ps st.
+
+  Lemma sd_frame : forall f st c, nodirty_eq st (set_dirty prog f st c).
+  Proof.
+    assert (R : forall st, nodirty_eq st st) by (intro; unfold nodirty_eq; repeat split; auto).
+    assert (T : forall a b c, nodirty_eq a b -> nodirty_eq b c -> nodirty_eq a c).
+    { intros a b c (A1 & A2 & A3 & A4 & A5 & A6 & A7 & A8) (B1 & B2 & B3 & B4 & B5 & B6 & B7 & B8).
+      unfold nodirty_eq. repeat split; congruence. }
+    induction f as [|f IH]; intros st c; simpl; auto.
+    destruct (negb (c <? n)%nat); auto. destruct (negb (alive st (cown c))); auto.
+    destruct (dirty st c); auto.
+    assert (H : forall l s, nodirty_eq s (fold_left (set_dirty prog f) l s)).
+    { induction l as [|d l IHl]; intros s; simpl; auto. eapply T; [apply IH|apply IHl]. }
+    eapply T; [|apply H]. unfold nodirty_eq. repeat split; auto.
+  Qed.
+
+  Lemma notify_frame : forall st s, nodirty_eq st (notify prog st s).
+  Proof.
+    intros st s. unfold notify. generalize (subs st s). intro l. revert st.
+    induction l as [|d l IH]; intros st; simpl.
+    - unfold nodirty_eq. repeat split; auto.
+    - destruct (sd_frame n st d) as (A1 & A2 & A3 & A4 & A5 & A6 & A7 & A8).
+      destruct (IH (set_dirty prog n st d)) as (B1 & B2 & B3 & B4 & B5 & B6 & B7 & B8).
+      unfold nodirty_eq. repeat split; congruence.
+  Qed.
 
   Lemma G_ps : forall st l, G st -> G (upd_ps st l).
   Proof. intros st l []. constructor; simpl; auto. Qed.
@@ -645,6 +722,75 @@ Section P.
           * split; [eapply same_hi_trans; eauto|]. repeat split; congruence.
     Qed.
 
+    (* what the evaluation adds to Computed.parents is exactly what the function reads *)
+    Lemma ev_reads : forall j, (j <= f)%nat -> (j < n)%nat -> forall e st,
+      G st -> RDs j st -> dirty st j = true -> Kinv j st ->
+      let '(st', v) := ev prog (callf prog f) j e st in
+      (forall p, In p (flat (parents st' j)) ->
+                 In p (flat (parents st j)) \/ In p (preads (D st) (alive st) (store st) j e)) /\
+      (forall p, In p (preads (D st) (alive st) (store st) j e) -> In p (flat (parents st' j))).
+    Proof.
+      intros j Hjf Hjn. induction e as [z|o nm|k|a IHa b IHb|c IHc a IHa b IHb]; intros st HG HR Hd HK.
+      - simpl. split; [auto|intros p []].
+      - simpl. rewrite (g_alive _ HG o). simpl. rewrite updn_same. split.
+        + intros p H. apply in_flat_padd_inv in H. destruct H as [H|H]; [right; left; auto|left; exact H].
+        + intros p [H|[]]. subst p. apply in_flat_padd_new.
+      - simpl. destruct ((k <? j)%nat && alive st (cown k)) eqn:Ec; [|split; [auto|intros p []]].
+        apply andb_true_iff in Ec. destruct Ec as [Ekj Eal]. apply Nat.ltb_lt in Ekj.
+        unfold read_comp.
+        pose proof (IHf st k j ltac:(lia) ltac:(lia) Ekj HG HR) as H.
+        destruct (callf prog f st k) as [st1 v]. destruct H as (G1 & R1 & Ev & Dk & Vk & HS & Hc).
+        assert (Ep : parents st1 j = parents st j).
+        { destruct HS as (_ & _ & A3 & _). apply A3. lia. }
+        set (st2 := add_parent prog st1 j (SComp k) v).
+        assert (E3 : parents (if first st k || negb (v =? value st k) then notify prog st2 (SComp k) else st2) j
+                     = padd (parents st j) (cown k) (SComp k) v).
+        { assert (E2 : parents st2 j = padd (parents st j) (cown k) (SComp k) v).
+          { unfold st2. simpl. rewrite updn_same, Ep. reflexivity. }
+          destruct (first st k || negb (v =? value st k)); auto.
+          destruct (notify_frame st2 (SComp k)) as (_ & _ & _ & _ & _ & E & _). rewrite E. exact E2. }
+        rewrite E3. split.
+        + intros p H. apply in_flat_padd_inv in H. destruct H as [H|H]; [right; left; congruence|left; exact H].
+        + intros p [H|[]]. subst p. rewrite <- Ev. apply in_flat_padd_new.
+      - simpl. pose proof (ev_ok j Hjf Hjn a st HG HR Hd HK) as Ha. specialize (IHa st HG HR Hd HK).
+        destruct (ev prog (callf prog f) j a st) as [st1 va].
+        destruct Ha as (G1 & R1 & K1 & V1 & M1 & Det1 & S1 & D1 & _).
+        assert (Es : store st1 = store st) by apply S1.
+        assert (Ea : alive st1 = alive st) by apply S1.
+        pose proof (ev_ok j Hjf Hjn b st1 G1 R1 D1 K1) as Hb. specialize (IHb st1 G1 R1 D1 K1).
+        destruct (ev prog (callf prog f) j b st1) as [st2 vb].
+        destruct Hb as (_ & _ & _ & _ & M2 & _).
+        unfold D in IHb. rewrite Es, Ea in IHb. fold (D st) in IHb.
+        destruct IHa as [A1 A2]. destruct IHb as [B1 B2]. split.
+        + intros p H. apply B1 in H. destruct H as [H|H].
+          * apply A1 in H. destruct H; auto. right. apply in_or_app. auto.
+          * right. apply in_or_app. auto.
+        + intros p H. apply in_app_or in H. destruct H as [H|H]; auto.
+      - simpl. pose proof (ev_ok j Hjf Hjn c st HG HR Hd HK) as Hc. specialize (IHc st HG HR Hd HK).
+        destruct (ev prog (callf prog f) j c st) as [st1 vc].
+        destruct Hc as (G1 & R1 & K1 & V1 & M1 & Det1 & S1 & D1 & _).
+        assert (Es : store st1 = store st) by apply S1.
+        assert (Ea : alive st1 = alive st) by apply S1.
+        rewrite <- V1. destruct IHc as [C1 C2].
+        destruct (vc =? 0).
+        + pose proof (ev_ok j Hjf Hjn b st1 G1 R1 D1 K1) as Hb. specialize (IHb st1 G1 R1 D1 K1).
+          destruct (ev prog (callf prog f) j b st1) as [st2 vb].
+          destruct Hb as (_ & _ & _ & _ & M2 & _).
+          unfold D in IHb. rewrite Es, Ea in IHb. fold (D st) in IHb. destruct IHb as [B1 B2]. split.
+          * intros p H. apply B1 in H. destruct H as [H|H].
+            -- apply C1 in H. destruct H; auto. right. apply in_or_app. auto.
+            -- right. apply in_or_app. auto.
+          * intros p H. apply in_app_or in H. destruct H as [H|H]; auto.
+        + pose proof (ev_ok j Hjf Hjn a st1 G1 R1 D1 K1) as Hb. specialize (IHa st1 G1 R1 D1 K1).
+          destruct (ev prog (callf prog f) j a st1) as [st2 vb].
+          destruct Hb as (_ & _ & _ & _ & M2 & _).
+          unfold D in IHa. rewrite Es, Ea in IHa. fold (D st) in IHa. destruct IHa as [B1 B2]. split.
+          * intros p H. apply B1 in H. destruct H as [H|H].
+            -- apply C1 in H. destruct H; auto. right. apply in_or_app. auto.
+            -- right. apply in_or_app. auto.
+          * intros p H. apply in_app_or in H. destruct H as [H|H]; auto.
+    Qed.
+
     Lemma G_remove_parents : forall st j, G st -> dirty st j = true -> G (remove_parents prog st j).
     Proof.
       intros st j HG Hd. destruct HG.
@@ -711,7 +857,9 @@ Section P.
       { intros s x H. unfold sta in H. simpl in H. rewrite updn_same in H. destruct H. }
       assert (Sa : same_hi (S j) st1 sta) by apply same_hi_remove_parents.
       pose proof (ev_ok j Hjf Hjn (d_expr (cdef_at prog j)) sta Ga Ra Hd Ka) as H.
+      pose proof (ev_reads j Hjf Hjn (d_expr (cdef_at prog j)) sta Ga Ra Hd Ka) as Hrd.
       destruct (ev prog (callf prog f) j (d_expr (cdef_at prog j)) sta) as [stb v].
+      destruct Hrd as [Rd1 Rd2].
       destruct H as (Gb & Rb & Kb & Vb & Mb & Detb & Sb & Db & Fb & Valb & Cb).
       assert (Sab : same_hi (S j) st1 stb) by (eapply same_hi_trans; eauto).
       assert (Esb : store stb = store st1) by apply Sab.
@@ -737,8 +885,12 @@ Section P.
       { intros i Hi Hfi. change (first stb i = false) in Hfi.
         change (RD (alive stb) i (parents stb i) (value st3 i)). rewrite Ev3.
         destruct (Nat.eqb i j) eqn:E.
-        - apply Nat.eqb_eq in E. subst i. intros sto' H. rewrite den_unfold. rewrite Eab.
-          apply Detb. intros s x Hin. change (alive sta) with (alive st1). rewrite <- Eab. apply H. exact Hin.
+        - apply Nat.eqb_eq in E. subst i. exists (store st1). rewrite Eab. split.
+          + intro p. unfold reads_of. split; intro Hp.
+            * destruct (Rd1 p Hp) as [Hq|Hq]; [|exact Hq].
+              unfold sta in Hq. simpl in Hq. rewrite updn_same in Hq. destruct Hq.
+            * apply Rd2. exact Hp.
+          + rewrite Vb. rewrite den_unfold. reflexivity.
         - apply Nat.eqb_neq in E. destruct (Nat.lt_ge_cases i j) as [Hlt|Hge].
           + apply Rb; auto.
           + destruct Sab as (_ & _ & A3 & _). destruct (A3 i ltac:(lia)) as (_ & E2 & E3 & _ & E5).
@@ -762,7 +914,7 @@ Section P.
       intros st j m Hjf Hjn Hjm HG HR. simpl.
       destruct (dirty st j) eqn:Ed; simpl.
       2:{ split; auto. split; auto. split.
-          { symmetry. apply (HR j Hjm (g_clean_first _ HG j Ed) (store st)).
+          { symmetry. apply (RD_det _ _ _ _ (HR j Hjm (g_clean_first _ HG j Ed)) (store st)).
             intros s x H. exact (g_clean_val _ HG j s x Ed H). }
           split; auto. split; auto. split; [apply same_hi_refl|]. intros _. split; auto.
           eapply g_clean_first; eauto. }
@@ -821,7 +973,7 @@ Section P.
               rewrite E5 in H. destruct (C1 _ _ H) as [_ Hk]. apply Hk. reflexivity. }
           split; [eapply RDs_ext; [| |exact R1]; [reflexivity|]; intros; auto|].
           assert (Hv : value st1 j = D st j).
-          { rewrite E3. symmetry. apply (HR j Hjm Ef (store st)). intros s x H. apply C1. exact H. }
+          { rewrite E3. symmetry. apply (RD_det _ _ _ _ (HR j Hjm Ef) (store st)). intros s x H. apply C1. exact H. }
           split; [exact Hv|]. split; [rewrite Ed3, Nat.eqb_refl; reflexivity|]. split; [reflexivity|].
           split; [|intro; discriminate].
           eapply same_hi_trans; [eapply same_hi_mono; [|exact S1]; lia|].
@@ -837,6 +989,228 @@ Section P.
     induction f as [|f IH].
     - intros st j m H. lia.
     - apply call_step. exact IH.
+  Qed.
+
+  (* ---------------------------------------------------------------- which functions run during a read *)
+  Definition just (st : state) (i : nat) : Prop :=
+    first st i = true \/ exists s x, In (s, x) (flat (parents st i)) /\ Dsrc st s <> x.
+
+  (* what happened to computed i between st and st': nothing but (possibly) being found unchanged, or
+     exactly one run of its function, justified in st, leaving the reads of that run as parents *)
+  Definition Q (st st' : state) (i : nat) : Prop :=
+    (count st' i = count st i /\ parents st' i = parents st i /\ first st' i = first st i /\ value st' i = value st i)
+    \/
+    (count st' i = count st i + 1 /\ dirty st i = true /\ dirty st' i = false /\ just st i /\
+     (forall p, In p (flat (parents st' i)) <-> In p (reads_of (alive st) (store st) i))).
+
+  Lemma Q_refl : forall st i, Q st st i.
+  Proof. intros. left. auto. Qed.
+
+  Lemma Q_trans : forall a b c i, Q a b i -> Q b c i -> store b = store a -> alive b = alive a ->
+    (dirty b i = true -> dirty a i = true) -> (dirty c i = true -> dirty b i = true) -> Q a c i.
+  Proof.
+    intros a b c i [(A1 & A2 & A3 & A4)|(A1 & A2 & A3 & A4 & A5)] [(B1 & B2 & B3 & B4)|(B1 & B2 & B3 & B4 & B5)] Es Ea N1 N2.
+    - left. repeat split; congruence.
+    - right. split; [congruence|]. split; [auto|]. split; [auto|]. split.
+      + destruct B4 as [H|[s [x [H1 H2]]]]; [left; congruence|right].
+        exists s, x. split; [congruence|]. unfold Dsrc in *. rewrite <- Es, <- Ea. exact H2.
+      + rewrite <- Es, <- Ea. exact B5.
+    - right. split; [congruence|]. split; [auto|]. split.
+      + destruct (dirty c i) eqn:E; auto. rewrite (N2 eq_refl) in A3. discriminate.
+      + split; auto. rewrite B2. exact A5.
+    - congruence.
+  Qed.
+
+  Lemma Q_same_hi : forall b st st' i, same_hi b st st' -> (b <= i)%nat -> Q st st' i.
+  Proof. intros b st st' i (_ & _ & A3 & _) Hi. destruct (A3 i Hi) as (a1 & a2 & a3 & a4 & a5). left. auto. Qed.
+
+  Definition call_q (f : nat) : Prop :=
+    forall st j m, (j < f)%nat -> (j < n)%nat -> (j < m)%nat -> G st -> RDs m st ->
+      forall i, Q st (fst (callf prog f st j)) i.
+
+  Section StepQ.
+    Variable f : nat.
+    Hypothesis IHq : call_q f.
+
+    (* Computable.__get__ = Computed.__call__ here: the change notification finds everybody dirty *)
+    Lemma rc_eq : forall st k m, (k < f)%nat -> (k < n)%nat -> (k < m)%nat -> G st -> RDs m st ->
+      read_comp prog (callf prog f) None st k = callf prog f st k.
+    Proof.
+      intros st k m Hkf Hkn Hkm HG HR. unfold read_comp.
+      pose proof (call_all f st k m Hkf Hkn Hkm HG HR) as H.
+      destruct (callf prog f st k) as [st1 v]. destruct H as (G1 & R1 & Ev & Dk & Vk & HS & Hc).
+      destruct (first st k || negb (v =? value st k)) eqn:E; auto.
+      assert (Hdk : dirty st k = true).
+      { destruct (dirty st k) eqn:Ed; auto. destruct (Hc eq_refl) as [Hv Hf]. rewrite <- Hv in E.
+        rewrite Hf, Z.eqb_refl in E. discriminate. }
+      rewrite notify_id; auto. eapply (subs_dirty_after st st1 k); eauto.
+    Qed.
+
+    Lemma rc_some_eq : forall st k j, (k < j)%nat -> (j <= f)%nat -> (j < n)%nat -> G st -> RDs j st -> dirty st j = true ->
+      read_comp prog (callf prog f) (Some j) st k =
+      (add_parent prog (fst (callf prog f st k)) j (SComp k) (snd (callf prog f st k)), snd (callf prog f st k)).
+    Proof.
+      intros st k j Hkj Hjf Hjn HG HR Hd. unfold read_comp.
+      pose proof (call_all f st k j ltac:(lia) ltac:(lia) Hkj HG HR) as H.
+      destruct (callf prog f st k) as [st1 v]. destruct H as (G1 & R1 & Ev & Dk & Vk & HS & Hc). simpl.
+      destruct (first st k || negb (v =? value st k)) eqn:E; auto.
+      assert (Hdk : dirty st k = true).
+      { destruct (dirty st k) eqn:Ed; auto. destruct (Hc eq_refl) as [Hv Hf]. rewrite <- Hv in E.
+        rewrite Hf, Z.eqb_refl in E. discriminate. }
+      assert (Hd1 : dirty st1 j = true).
+      { destruct HS as (_ & _ & A3 & _). destruct (A3 j ltac:(lia)) as (E1 & _). congruence. }
+      rewrite notify_id; auto. intros d Hin. simpl in Hin. rewrite upds_same in Hin.
+      apply in_app_or in Hin. destruct Hin as [Hin|[Hin|[]]].
+      - change (dirty st1 d = true). eapply (subs_dirty_after st st1 k); eauto.
+      - subst d. exact Hd1.
+    Qed.
+
+    Lemma cmp_q : forall j m l st, (j <= f)%nat -> (j < n)%nat -> (j <= m)%nat -> G st -> RDs m st ->
+      (forall k x, In (SComp k, x) l -> (k < j)%nat) ->
+      forall i, Q st (fst (cmp_items prog (callf prog f) l st)) i.
+    Proof.
+      intros j m. induction l as [|[s old] t IH]; intros st Hjf Hjn Hjm HG HR Hl i; simpl.
+      - apply Q_refl.
+      - destruct s as [o nm|k].
+        + destruct (store st o nm =? old); [|apply Q_refl].
+          apply IH; auto. intros k x H. apply (Hl k x). right. exact H.
+        + assert (Hkj : (k < j)%nat) by (eapply Hl; left; reflexivity).
+          rewrite (rc_eq st k m ltac:(lia) ltac:(lia) ltac:(lia) HG HR).
+          pose proof (call_all f st k m ltac:(lia) ltac:(lia) ltac:(lia) HG HR) as H.
+          pose proof (IHq st k m ltac:(lia) ltac:(lia) ltac:(lia) HG HR i) as Hq.
+          destruct (callf prog f st k) as [st1 v]. destruct H as (G1 & R1 & Ev & Dk & Vk & HS & Hc). simpl in Hq.
+          destruct (v =? old); [|exact Hq].
+          pose proof (cmp_ok f (call_all f) j m t st1 Hjf Hjn Hjm G1 R1 (fun k x H => Hl k x (or_intror H))) as Hc2.
+          specialize (IH st1 Hjf Hjn Hjm G1 R1 (fun k x H => Hl k x (or_intror H)) i).
+          destruct (cmp_items prog (callf prog f) t st1) as [st2 ch]. simpl in *.
+          destruct Hc2 as (_ & _ & S2 & _).
+          eapply Q_trans; [exact Hq|exact IH|apply HS|apply HS|apply HS|apply S2].
+    Qed.
+
+    Lemma ev_q : forall j, (j <= f)%nat -> (j < n)%nat -> forall e st,
+      G st -> RDs j st -> dirty st j = true -> Kinv j st ->
+      forall i, i <> j -> Q st (fst (ev prog (callf prog f) j e st)) i.
+    Proof.
+      intros j Hjf Hjn. induction e as [z|o nm|k|a IHa b IHb|c IHc a IHa b IHb]; intros st HG HR Hd HK i Hi.
+      - apply Q_refl.
+      - simpl. destruct (alive st o); [|apply Q_refl]. left. simpl. rewrite updn_other by auto. auto.
+      - simpl. destruct ((k <? j)%nat && alive st (cown k)) eqn:Ec; [|apply Q_refl].
+        apply andb_true_iff in Ec. destruct Ec as [Ekj _]. apply Nat.ltb_lt in Ekj.
+        rewrite (rc_some_eq st k j Ekj Hjf Hjn HG HR Hd).
+        pose proof (call_all f st k j ltac:(lia) ltac:(lia) Ekj HG HR) as H.
+        pose proof (IHq st k j ltac:(lia) ltac:(lia) Ekj HG HR i) as Hq.
+        destruct (callf prog f st k) as [st1 v]. destruct H as (G1 & R1 & Ev & Dk & Vk & HS & Hc). simpl in *.
+        eapply Q_trans; [exact Hq| |apply HS|apply HS|apply HS|auto].
+        left. simpl. rewrite updn_other by auto. auto.
+      - simpl. pose proof (ev_ok f (call_all f) j Hjf Hjn a st HG HR Hd HK) as Ha. specialize (IHa st HG HR Hd HK i Hi).
+        destruct (ev prog (callf prog f) j a st) as [st1 va].
+        destruct Ha as (G1 & R1 & K1 & V1 & M1 & Det1 & S1 & D1 & _).
+        pose proof (ev_ok f (call_all f) j Hjf Hjn b st1 G1 R1 D1 K1) as Hb. specialize (IHb st1 G1 R1 D1 K1 i Hi).
+        destruct (ev prog (callf prog f) j b st1) as [st2 vb].
+        destruct Hb as (_ & _ & _ & _ & _ & _ & S2 & _). simpl in *.
+        eapply Q_trans; [exact IHa|exact IHb|apply S1|apply S1|apply S1|apply S2].
+      - simpl. pose proof (ev_ok f (call_all f) j Hjf Hjn c st HG HR Hd HK) as Hc. specialize (IHc st HG HR Hd HK i Hi).
+        destruct (ev prog (callf prog f) j c st) as [st1 vc].
+        destruct Hc as (G1 & R1 & K1 & V1 & M1 & Det1 & S1 & D1 & _). simpl in IHc.
+        destruct (vc =? 0).
+        + pose proof (ev_ok f (call_all f) j Hjf Hjn b st1 G1 R1 D1 K1) as Hb. specialize (IHb st1 G1 R1 D1 K1 i Hi).
+          destruct (ev prog (callf prog f) j b st1) as [st2 vb].
+          destruct Hb as (_ & _ & _ & _ & _ & _ & S2 & _). simpl in *.
+          eapply Q_trans; [exact IHc|exact IHb|apply S1|apply S1|apply S1|apply S2].
+        + pose proof (ev_ok f (call_all f) j Hjf Hjn a st1 G1 R1 D1 K1) as Hb. specialize (IHa st1 G1 R1 D1 K1 i Hi).
+          destruct (ev prog (callf prog f) j a st1) as [st2 vb].
+          destruct Hb as (_ & _ & _ & _ & _ & _ & S2 & _). simpl in *.
+          eapply Q_trans; [exact IHc|exact IHa|apply S1|apply S1|apply S1|apply S2].
+    Qed.
+
+    (* the rebuilding branch of __call__, from a state st1 in which j is dirty and not first *)
+    Lemma rebuild_q : forall j st1, (j <= f)%nat -> (j < n)%nat -> G st1 -> RDs j st1 -> dirty st1 j = true ->
+      let '(stb, v) := ev prog (callf prog f) j (d_expr (cdef_at prog j)) (remove_parents prog st1 j) in
+      (forall i, i <> j -> Q st1 stb i) /\ count stb j = count st1 j /\
+      (forall p, In p (flat (parents stb j)) <-> In p (reads_of (alive st1) (store st1) j)) /\
+      (forall i, dirty stb i = true -> dirty st1 i = true).
+    Proof.
+      intros j st1 Hjf Hjn HG HR Hd.
+      set (sta := remove_parents prog st1 j).
+      assert (Ga : G sta) by (apply G_remove_parents; auto).
+      assert (Ra : RDs j sta).
+      { intros i Hi Hfi. unfold sta in *. simpl in *. rewrite updn_other by lia. apply HR; auto. }
+      assert (Ka : Kinv j sta).
+      { intros s x H. unfold sta in H. simpl in H. rewrite updn_same in H. destruct H. }
+      pose proof (ev_ok f (call_all f) j Hjf Hjn (d_expr (cdef_at prog j)) sta Ga Ra Hd Ka) as H.
+      pose proof (ev_reads f (call_all f) j Hjf Hjn (d_expr (cdef_at prog j)) sta Ga Ra Hd Ka) as Hrd.
+      pose proof (ev_q j Hjf Hjn (d_expr (cdef_at prog j)) sta Ga Ra Hd Ka) as Hq.
+      destruct (ev prog (callf prog f) j (d_expr (cdef_at prog j)) sta) as [stb v].
+      destruct H as (Gb & Rb & Kb & Vb & Mb & Detb & Sb & Db & Fb & Valb & Cb). destruct Hrd as [Rd1 Rd2]. simpl in Hq.
+      split; [|split; [exact Cb|split]].
+      - intros i Hi. eapply Q_trans; [|exact (Hq i Hi)|reflexivity|reflexivity|auto|apply Sb].
+        left. unfold sta. simpl. rewrite updn_other by auto. auto.
+      - intro p. unfold reads_of. split; intro Hp.
+        + destruct (Rd1 p Hp) as [Hx|Hx]; [|exact Hx]. unfold sta in Hx. simpl in Hx. rewrite updn_same in Hx. destruct Hx.
+        + apply Rd2. exact Hp.
+      - intros i Hdi. destruct Sb as (_ & _ & _ & _ & N). apply N in Hdi. exact Hdi.
+    Qed.
+
+    Lemma call_q_step : call_q (S f).
+    Proof.
+      intros st j m Hjf Hjn Hjm HG HR i. simpl.
+      destruct (dirty st j) eqn:Ed; simpl; [|apply Q_refl].
+      destruct (first st j) eqn:Ef.
+      - set (st1 := upd_first st (updn (first st) j false)).
+        assert (G1 : G st1).
+        { destruct HG. constructor; try assumption.
+          intros i0 Hc. change (updn (first st) j false i0 = false). unfold updn. destruct (Nat.eqb i0 j); auto. }
+        assert (R1 : RDs j st1).
+        { intros i0 Hi Hfi. unfold st1 in *. simpl in *. rewrite updn_other in Hfi by lia. apply HR; auto; lia. }
+        pose proof (rebuild_q j st1 ltac:(lia) Hjn G1 R1 Ed) as H.
+        destruct (ev prog (callf prog f) j (d_expr (cdef_at prog j)) (remove_parents prog st1 j)) as [stb v].
+        destruct H as (Hq & Hc & Hp & Hn). simpl.
+        destruct (Nat.eq_dec i j) as [->|Hne].
+        + right. simpl. rewrite !updn_same. split; [rewrite Hc; reflexivity|]. split; [exact Ed|]. split; [reflexivity|].
+          split; [left; exact Ef|exact Hp].
+        + specialize (Hq i Hne). destruct Hq as [(q1 & q2 & q3 & q4)|(q1 & q2 & q3 & q4 & q5)].
+          * left. simpl. rewrite !updn_other by auto. unfold st1 in *. simpl in *. rewrite updn_other in q3 by auto. auto.
+          * right. simpl. rewrite !updn_other by auto. split; [exact q1|]. split; [exact q2|]. split; [exact q3|]. split; [|exact q5].
+            destruct q4 as [q4|q4]; [left|right; exact q4]. unfold st1 in q4. simpl in q4. rewrite updn_other in q4 by auto. exact q4.
+      - pose proof (cmp_ok f (call_all f) j m (flat (parents st j)) st ltac:(lia) Hjn ltac:(lia) HG HR
+                      (fun k x H => g_par_down _ HG j k x H)) as H.
+        pose proof (cmp_q j m (flat (parents st j)) st ltac:(lia) Hjn ltac:(lia) HG HR
+                      (fun k x H => g_par_down _ HG j k x H)) as Hq1.
+        destruct (cmp_items prog (callf prog f) (flat (parents st j)) st) as [st1 ch]. simpl in Hq1.
+        destruct H as (G1 & R1 & S1 & C1 & C2).
+        assert (Ej : dirty st1 j = dirty st j /\ first st1 j = first st j /\ value st1 j = value st j /\
+                     count st1 j = count st j /\ parents st1 j = parents st j).
+        { destruct S1 as (_ & _ & A3 & _). apply A3. lia. }
+        destruct Ej as (E1 & E2 & E3 & E4 & E5).
+        assert (Es : store st1 = store st) by apply S1.
+        assert (Ea : alive st1 = alive st) by apply S1.
+        destruct ch.
+        + assert (R1j : RDs j st1) by (intros i0 Hi Hfi; apply R1; auto; lia).
+          pose proof (rebuild_q j st1 ltac:(lia) Hjn G1 R1j ltac:(congruence)) as H.
+          destruct (ev prog (callf prog f) j (d_expr (cdef_at prog j)) (remove_parents prog st1 j)) as [stb v].
+          destruct H as (Hq & Hc & Hp & Hn). simpl.
+          destruct (Nat.eq_dec i j) as [->|Hne].
+          * right. simpl. rewrite !updn_same. split; [rewrite Hc, E4; reflexivity|]. split; [exact Ed|]. split; [reflexivity|].
+            split; [right; destruct (C2 eq_refl) as [s [x [H1 H2]]]; exists s, x; auto|].
+            rewrite <- Es, <- Ea. exact Hp.
+          * eapply Q_trans; [exact (Hq1 i)| |exact Es|exact Ea|apply S1|].
+            -- specialize (Hq i Hne). destruct Hq as [(q1 & q2 & q3 & q4)|(q1 & q2 & q3 & q4 & q5)].
+               ++ left. simpl. rewrite !updn_other by auto. auto.
+               ++ right. simpl. rewrite !updn_other by auto. auto.
+            -- simpl. rewrite updn_other by auto. apply Hn.
+        + simpl. destruct (Nat.eq_dec i j) as [->|Hne].
+          * left. simpl. auto.
+          * eapply Q_trans; [exact (Hq1 i)| |exact Es|exact Ea|apply S1|].
+            -- left. simpl. auto.
+            -- simpl. rewrite updn_other by auto. auto.
+    Qed.
+  End StepQ.
+
+  Lemma call_q_all : forall f, call_q f.
+  Proof.
+    induction f as [|f IH].
+    - intros st j m H. lia.
+    - apply call_q_step. exact IH.
   Qed.
 
   (* ---------------------------------------------------------------- top level *)
@@ -896,9 +1270,9 @@ Section P.
         assert (Hfk : first st1 k = false) by (eapply g_clean_first; eauto).
         pose proof (HR k Hkn Hfk) as HRk.
         assert (H2 : den (alive st1) (store st2) k = value st1 k).
-        { apply HRk. intros s' x' H'. exact (IH k Hkj Hck s' x' H'). }
+        { apply (RD_det _ _ _ _ HRk). intros s' x' H'. exact (IH k Hkj Hck s' x' H'). }
         assert (H1 : den (alive st1) (store st1) k = value st1 k).
-        { apply HRk. intros s' x' H'. exact (g_clean_val _ HG k s' x' Hck H'). }
+        { apply (RD_det _ _ _ _ HRk). intros s' x' H'. exact (g_clean_val _ HG k s' x' Hck H'). }
         pose proof (g_clean_val _ HG j _ x Hc H) as H3. simpl in H3. unfold Dsrc. simpl.
         transitivity (value st1 k); [exact H2|congruence]. }
     split.
@@ -956,6 +1330,10 @@ Section P.
     - pose proof (run_acts_ok acts st HI) as H. destruct (run_acts prog acts st) as [st1 ok]. exact H.
   Qed.
 
+  Lemma final_snoc' : forall pre st x,
+    final prog nobs st (pre ++ [x]) = fst (step prog nobs (final prog nobs st pre) x).
+  Proof. induction pre as [|y t IH]; intros st x; simpl; auto. Qed.
+
   Lemma final_ok : forall ops st, Inv st -> no_kill ops = true -> Inv (final prog nobs st ops).
   Proof.
     induction ops as [|x t IH]; intros st HI Hn; simpl; auto.
@@ -980,6 +1358,163 @@ Section P.
       apply IH; [|intros; apply Hl; right; auto].
       pose proof (read_top_ok s k Hs (Hl k (or_introl eq_refl))) as H. destruct (read_top prog s k). apply H. }
     apply H; auto. intros k Hk. apply in_seq in Hk. unfold ncomp. lia.
+  Qed.
+
+  Lemma reach_ok : forall init ops, no_kill ops = true -> Inv (final prog nobs (install prog (init_state init)) ops).
+  Proof. intros. apply final_ok; auto. apply install_ok. apply init_ok. Qed.
+
+  (* parents = the reads of the last evaluation, with the values read; subscribed to each *)
+  Lemma parents_are_last_reads : forall init ops k, no_kill ops = true -> (k < n)%nat ->
+    let st := final prog nobs (install prog (init_state init)) ops in
+    first st k = false ->
+    (exists sto0, (forall p, In p (flat (parents st k)) <-> In p (reads_of (alive st) sto0 k)) /\
+                  value st k = den (alive st) sto0 k) /\
+    (forall s x, In (s, x) (flat (parents st k)) -> In k (subs st s)) /\
+    (dirty st k = false ->
+       (forall p, In p (flat (parents st k)) <-> In p (reads_of (alive st) (store st) k)) /\
+       value st k = den (alive st) (store st) k).
+  Proof.
+    intros init ops k Hn Hk st Hf. destruct (reach_ok init ops Hn) as [HG HR]. fold st in HG, HR.
+    split; [exact (HR k Hk Hf)|]. split; [intros s x H; exact (g_par_sub _ HG k s x H)|].
+    intros Hc. destruct (RD_det _ _ _ _ (HR k Hk Hf) (store st)) as [H1 H2].
+    { intros s x H. exact (g_clean_val _ HG k s x Hc H). }
+    split; auto.
+  Qed.
+
+  Lemma read_top_q : forall st j, Inv st -> (j < n)%nat -> forall i, Q st (fst (read_top prog st j)) i.
+  Proof.
+    intros st j [HG HR] Hj i. unfold read_top. rewrite (rc_eq n st j n Hj Hj Hj HG HR).
+    apply (call_q_all n st j n Hj Hj Hj HG HR).
+  Qed.
+
+  (* whole histories: reading ANY computed j (k itself, or something that reads k through a chain) runs
+     the function of k at most once, and only if it never ran or a value it read last time differs now;
+     the parents it is left with are the reads of that run on the current store *)
+  Lemma runs_only_when_changed : forall init ops j k, no_kill ops = true -> (j < n)%nat ->
+    let st := final prog nobs (install prog (init_state init)) ops in
+    let st' := fst (read_top prog st j) in
+    count st' k = count st k \/
+    (count st' k = count st k + 1 /\
+     (first st k = true \/ exists s x, In (s, x) (flat (parents st k)) /\ dsrc (alive st) (store st) s <> x) /\
+     (forall p, In p (flat (parents st' k)) <-> In p (reads_of (alive st) (store st) k))).
+  Proof.
+    intros init ops j k Hn Hj st st'.
+    destruct (read_top_q st j (reach_ok init ops Hn) Hj k) as [(q1 & _)|(q1 & _ & _ & q4 & q5)]; [left; exact q1|].
+    right. split; [exact q1|]. split; [exact q4|exact q5].
+  Qed.
+
+  Lemma no_spurious_history : forall init ops j k, no_kill ops = true -> (j < n)%nat ->
+    let st := final prog nobs (install prog (init_state init)) ops in
+    first st k = false ->
+    (forall s x, In (s, x) (flat (parents st k)) -> dsrc (alive st) (store st) s = x) ->
+    count (fst (read_top prog st j)) k = count st k.
+  Proof.
+    intros init ops j k Hn Hj st Hf Hp.
+    destruct (runs_only_when_changed init ops j k Hn Hj) as [H|(_ & [H|[s [x [H1 H2]]]] & _)]; auto.
+    - fold st in H. congruence.
+    - exfalso. apply H2. apply Hp. exact H1.
+  Qed.
+
+  (* an assignment never runs a function (evaluation is lazy) *)
+  Lemma set_obs_count : forall b st o nm v st', set_obs prog b st o nm v = Some st' -> count st' = count st.
+  Proof.
+    intros b st o nm v st' H. unfold set_obs in H. destruct (b && ps_mem o nm (ps st)); [discriminate|].
+    destruct (notify_frame st (SObs o nm)) as (_ & _ & _ & _ & E & _).
+    destruct b; inversion H; subst st'; simpl; exact E.
+  Qed.
+
+  (* a read served from cache changes nothing, in particular not PROCESSING_SIGNALS *)
+  Lemma read_cached_noop : forall st k, (k < n)%nat -> dirty st k = false -> first st k = false ->
+    read_top prog st k = (st, value st k).
+  Proof.
+    intros st k Hk Hd Hf. unfold read_top, read_comp. unfold ncomp in *. destruct (length prog) as [|m]; [lia|].
+    simpl. rewrite Hd. simpl. rewrite Hf, Z.eqb_refl. reflexivity.
+  Qed.
+
+  (* ---------------------------------------------------------------- owner collection *)
+  (* the liveness map after collecting owner o *)
+  Definition al_kill (al : Z -> bool) (o : Z) : Z -> bool := fun o' => if o' =? o then false else al o'.
+
+  (* an evaluation none of whose reads is on owner o, and whose Computable reads are unaffected,
+     gives the same result after o is collected *)
+  Lemma pev_kill : forall al sto o j e,
+    (forall s x, In (s, x) (preads (den al sto) al sto j e) -> ownof s <> o /\ dsrc (al_kill al o) sto s = x) ->
+    pev (den (al_kill al o) sto) (al_kill al o) sto j e = pev (den al sto) al sto j e.
+  Proof.
+    intros al sto o j. induction e as [z|o' nm|k|a IHa b IHb|c IHc a IHa b IHb]; simpl; intros H; auto.
+    - unfold al_kill at 1. destruct (al o') eqn:E.
+      + destruct (H (SObs o' nm) (sto o' nm) (or_introl eq_refl)) as [Hne _]. simpl in Hne.
+        destruct (o' =? o) eqn:E2; [apply Z.eqb_eq in E2; contradiction|reflexivity].
+      + destruct (o' =? o); reflexivity.
+    - unfold al_kill at 1. destruct (k <? j)%nat eqn:E1; simpl in *; [|reflexivity].
+      destruct (al (cown k)) eqn:E2.
+      + destruct (H (SComp k) (den al sto k) (or_introl eq_refl)) as [Hne Hv]. simpl in Hne, Hv.
+        destruct (cown k =? o) eqn:E3; [apply Z.eqb_eq in E3; contradiction|exact Hv].
+      + destruct (cown k =? o); reflexivity.
+    - rewrite IHa, IHb; auto; intros; apply H; apply in_or_app; auto.
+    - rewrite IHc by (intros; apply H; apply in_or_app; auto).
+      destruct (pev (den al sto) al sto j c =? 0).
+      + apply IHb. intros. apply H. apply in_or_app. auto.
+      + apply IHa. intros. apply H. apply in_or_app. auto.
+  Qed.
+
+  (* "the last evaluation of k read nothing of owner o, directly or through the Computables it read" *)
+  Fixpoint indepf (f : nat) (st : state) (o : Z) (k : nat) : bool :=
+    match f with
+    | O => false
+    | S f' => forallb (fun p => negb (ownof (fst p) =? o) &&
+                                match fst p with SComp k' => indepf f' st o k' | SObs _ _ => true end)
+                      (flat (parents st k))
+    end.
+
+  Lemma den_kill_indep : forall st o, Inv st -> forall f k, (k < f)%nat -> (k < n)%nat ->
+    dirty st k = false -> indepf f st o k = true ->
+    den (al_kill (alive st) o) (store st) k = den (alive st) (store st) k.
+  Proof.
+    intros st o [HG HR]. induction f as [|f IH]; intros k Hkf Hkn Hd Hi; [lia|].
+    simpl in Hi. rewrite forallb_forall in Hi.
+    pose proof (g_clean_first _ HG k Hd) as Hf.
+    destruct (RD_det _ _ _ _ (HR k Hkn Hf) (store st)) as [H1 H2].
+    { intros s x H. exact (g_clean_val _ HG k s x Hd H). }
+    rewrite (den_unfold (al_kill (alive st) o)), (den_unfold (alive st)).
+    apply pev_kill. intros s x Hin. apply H2 in Hin.
+    specialize (Hi (s, x) Hin). simpl in Hi. apply andb_true_iff in Hi. destruct Hi as [Hi1 Hi2].
+    split.
+    - apply negb_true_iff in Hi1. apply Z.eqb_neq. exact Hi1.
+    - pose proof (g_clean_val _ HG k s x Hd Hin) as Hv. destruct s as [o' nm|k']; [exact Hv|].
+      simpl. simpl in Hv. rewrite <- Hv. apply IH; auto.
+      + pose proof (g_par_down _ HG k k' x Hin). lia.
+      + pose proof (g_par_down _ HG k k' x Hin). lia.
+      + exact (g_clean_par _ HG k k' x Hd Hin).
+  Qed.
+
+  (* collecting an owner does not make a clean Computed stale unless its last evaluation read that owner
+     (directly or through the chain): right after the collection it still returns what its function
+     returns on the current store with the current live owners *)
+  Lemma never_stale_after_kill : forall init pre o k, no_kill pre = true -> (k < n)%nat ->
+    let st := final prog nobs (install prog (init_state init)) pre in
+    let st' := final prog nobs (install prog (init_state init)) (pre ++ [Kill o]) in
+    cown k <> o -> dirty st k = false -> indepf n st o k = true ->
+    alive st' (cown k) = true /\
+    snd (read_top prog st' k) = den (alive st') (store st') k.
+  Proof.
+    intros init pre o k Hn Hk st st' Hne Hd Hi.
+    pose proof (reach_ok init pre Hn) as HI. fold st in HI.
+    assert (Est : st' = fst (step prog nobs st (Kill o))) by (unfold st'; rewrite final_snoc'; reflexivity).
+    unfold step in Est. rewrite (g_alive _ (proj1 HI) o) in Est. cbn [fst] in Est.
+    assert (Ea : alive st' = al_kill (alive st) o) by (rewrite Est; reflexivity).
+    assert (Es : store st' = store st) by (rewrite Est; reflexivity).
+    assert (Ed : dirty st' k = false) by (rewrite Est; exact Hd).
+    assert (Ef : first st' k = false) by (rewrite Est; simpl; exact (g_clean_first _ (proj1 HI) k Hd)).
+    assert (Ev : value st' k = value st k) by (rewrite Est; reflexivity).
+    split.
+    - rewrite Ea. unfold al_kill. destruct (cown k =? o) eqn:E; [apply Z.eqb_eq in E; contradiction|].
+      apply (g_alive _ (proj1 HI)).
+    - rewrite (read_cached_noop st' k Hk Ed Ef). simpl. rewrite Ev, Ea, Es.
+      rewrite (den_kill_indep st o HI n k Hk Hk Hd Hi).
+      destruct HI as [HG HR]. symmetry.
+      apply (RD_det _ _ _ _ (HR k Hk (g_clean_first _ HG k Hd)) (store st)).
+      intros s x H. exact (g_clean_val _ HG k s x Hd H).
   Qed.
 
   (* never stale: after any history of assignments, reads and writer Computeds, reading computed k
@@ -1199,6 +1734,36 @@ Section Cyc.
         apply IH. destruct (set_inside_pext _ _ _ _ _ E) as [E2 _]. rewrite E2. exact Hal.
   Qed.
 
+  (* exactly what the code rejects: an assignment from inside a function is refused iff the
+     observable is in PROCESSING_SIGNALS at that moment *)
+  Lemma write_rejected_iff : forall st o nm v, alive st o = true ->
+    (snd (run_acts prog [AWrite o nm v] st) = false <-> ps_mem o nm (ps st) = true).
+  Proof.
+    intros st o nm v Hal. simpl. rewrite Hal. unfold set_obs. simpl.
+    destruct (ps_mem o nm (ps st)); simpl; split; intro; auto; discriminate.
+  Qed.
+
+  (* read a Computable, then assign: rejected iff evaluating the Computable put the observable into the
+     read set - i.e. iff its function was actually RE-RUN and read it (or it was there before) *)
+  Lemma read_comp_then_write : forall st k o nm v, (k < ncomp prog)%nat -> alive st (cowner prog k) = true ->
+    alive st o = true ->
+    snd (run_acts prog [AReadC k; AWrite o nm v] st) = negb (ps_mem o nm (ps (fst (read_top prog st k)))).
+  Proof.
+    intros st k o nm v Hk Hal Ho. simpl. apply Nat.ltb_lt in Hk. rewrite Hk, Hal. simpl.
+    destruct (read_top_pext st k) as [Ea _]. rewrite Ea, Ho. unfold set_obs. simpl.
+    destruct (ps_mem o nm (ps (fst (read_top prog st k)))); reflexivity.
+  Qed.
+
+  (* ... so a transitive cycle through a Computable that is served from cache is ACCEPTED, whatever
+     that Computable depends on *)
+  Lemma cycle_through_cache_accepted : forall st k o nm v, (k < ncomp prog)%nat -> alive st (cowner prog k) = true ->
+    alive st o = true -> dirty st k = false -> first st k = false -> ps_mem o nm (ps st) = false ->
+    snd (run_acts prog [AReadC k; AWrite o nm v] st) = true.
+  Proof.
+    intros st k o nm v Hk Hal Ho Hd Hf Hps. rewrite read_comp_then_write by auto.
+    rewrite (read_cached_noop prog st k Hk Hd Hf). simpl. rewrite Hps. reflexivity.
+  Qed.
+
   (* a rejected assignment leaves the store alone (the ValueError is raised before notify/store) *)
   Lemma rejected_write_atomic : forall st o nm v, set_obs prog true st o nm v = None -> ps_mem o nm (ps st) = true.
   Proof.
@@ -1225,4 +1790,23 @@ Proof.
   destruct (set_obs prog false st o nm v) as [st1|] eqn:E.
   - simpl. destruct (set_ok prog false st o nm v st1 HI E) as (_ & _ & H). apply H.
   - unfold set_obs in E. simpl in E. discriminate.
+Qed.
+
+Lemma never_stale_case : forall (c : case) (pre : list op) (k : nat),
+  no_kill pre = true -> (k < length (c_comps c))%nat ->
+  let st := final (c_comps c) (map (@length Z) (c_init c)) (start c) pre in
+  snd (read_top (c_comps c) st k) = den (c_comps c) (alive st) (store st) k.
+Proof. intros c pre k. exact (never_stale (c_comps c) (map (@length Z) (c_init c)) (c_init c) pre k). Qed.
+
+Lemma chain_read : forall (c : case) (pre : list op) (k : nat),
+  no_kill pre = true -> (k < length (c_comps c))%nat ->
+  let prog := c_comps c in
+  let st := final prog (map (@length Z) (c_init c)) (start c) pre in
+  let ev := den prog (alive st) (store st) in
+  snd (read_top prog st k) = pev prog ev (alive st) (store st) k (d_expr (cdef_at prog k)) /\
+  (forall k', ev k' = pev prog ev (alive st) (store st) k' (d_expr (cdef_at prog k'))).
+Proof.
+  intros c pre k Hn Hk prog st ev. split.
+  - unfold ev. rewrite <- den_unfold. exact (never_stale_case c pre k Hn Hk).
+  - intro k'. exact (den_unfold prog (alive st) (store st) k').
 Qed.
